@@ -24,7 +24,7 @@ func (v c08Valuer) Value(key string) (any, bool) {
 	return nil, false
 }
 
-//verif:entry tier=quick,thorough cover=rebuilt,same,error,withrange,withoptions,withdefault
+//verif:entry native tier=quick,thorough cover=rebuilt,same,error,withrange,withoptions,withdefault
 //verif:doc toOptionsWithContext for every option combination: Optional/FromString/Inherit booleans, OptionalDep in {"", dep, !dep, !}, Range nil/non-nil, Options nil/non-nil, Default empty/non-empty, presence of dep and self in the Valuer symbolic. Resolved Optional equals the specification table and the result carries the same Range, Options, Default and FromString as the declaration (frame property).
 func Verif_C08_Options() {
 	o := &fieldOptions{}
@@ -84,7 +84,7 @@ func Verif_C08_Options() {
 	rt.Assert(res.FromString == o.FromString, "the string flag survives option resolution")
 }
 
-//verif:entry tier=quick,thorough cover=inside,below,above,nan,boundary
+//verif:entry native tier=quick,thorough cover=inside,below,above,nan,boundary
 //verif:doc validateNumberRange for EVERY float64 value (exact IEEE-754 FloatingPoint sort: NaN, infinities, signed zeros, subnormals included) against every range with non-NaN bounds left <= right and all four open/closed combinations: nil iff the value lies inside the declared range.
 func Verif_C08_RangeFloat() {
 	fv := rt.FloatAny("value")
@@ -120,7 +120,7 @@ func Verif_C08_RangeFloat() {
 	rt.Assert(validateValueRange(fv, nil) == nil && validateValueRange(fv, &fieldOptionsWithContext{}) == nil, "no declared range means no range error")
 }
 
-//verif:entry tier=quick,thorough cover=intinside,intoutside,notnumber
+//verif:entry native tier=quick,thorough cover=intinside,intoutside,notnumber
 //verif:doc validateValueRange for every int64 / uint64 value against ranges with bounds drawn from a list of representable constants (all four open/closed combinations): accepted iff inside; non-numeric values are rejected when a range is declared.
 func Verif_C08_RangeInt() {
 	bounds := []float64{-9007199254740992, -2.5, 0, 1, 5, 9007199254740992}
@@ -156,7 +156,7 @@ func Verif_C08_RangeInt() {
 	}
 }
 
-//verif:entry tier=quick,thorough cover=member,nonmember,nooptions
+//verif:entry native tier=quick,thorough cover=member,nonmember,nooptions
 //verif:doc validateValueInOptions with the value and 0..3 options as atoms (equalities solver-chosen): nil iff no options are declared or the value equals one of them.
 func Verif_C08_Options2() {
 	n := rt.Choose("n", 4)
@@ -183,7 +183,7 @@ func Verif_C08_Options2() {
 	rt.Assert((err == nil) == (n == 0 || member), "a supplied value is accepted iff it is one of the declared options")
 }
 
-//verif:entry tier=quick,thorough cover=parsed,badbracket,inverted,emptypoint
+//verif:entry native tier=quick,thorough cover=parsed,badbracket,inverted,emptypoint
 //verif:doc parseNumberRange on b0 ++ L ++ ":" ++ R ++ b1 with both bracket bytes symbolic (all 256 values) and numerals from a small list (including empty ends): include flags iff '[' / ']', any other bracket byte is an error, left > right and half-open single points are rejected.
 func Verif_C08_ParseRange() {
 	nums := []string{"", "1", "2", "2.5", "-3"}
